@@ -243,6 +243,25 @@ func runProperty(propID, tier, only string, opts *Options, noreplay bool) int {
 func printResult(r *HarnessResult) {
 	fmt.Printf("harness %s: paths=%d ok=%d decisions=%d checks proved=%d const=%d violations=%d inconclusive=%d queries=%d solver=%.1fs wall=%.1fs steps=%d\n",
 		r.Name, r.Paths, r.PathsOK, r.Decisions, r.ChecksProved, r.ChecksConst, len(r.Violations), len(r.Inconclusive), r.Queries, r.SolverTime.Seconds(), r.Wall.Seconds(), r.Steps)
+	if len(r.Reached) > 3 {
+		type kv struct {
+			k string
+			n int
+		}
+		var kvs []kv
+		for k, n := range r.Reached {
+			kvs = append(kvs, kv{k, n})
+		}
+		sort.Slice(kvs, func(i, j int) bool { return kvs[i].n > kvs[j].n })
+		fmt.Printf("  reach labels (top):")
+		for i, e := range kvs {
+			if i >= 14 {
+				break
+			}
+			fmt.Printf(" %s=%d", e.k, e.n)
+		}
+		fmt.Println()
+	}
 	for k, n := range r.Inconclusive {
 		fmt.Printf("  INCONCLUSIVE %s: %s (x%d)\n", r.Name, k, n)
 	}
